@@ -448,7 +448,15 @@ fn run_with<M: MemoizerKind>(
         .write_pattern(&mut sh3, pattern, args.as_ref(), &mut shared_errs)
         .expect("HARNESS: write");
     let n3 = shared_errs.len();
-    let shared_ok = sh1 == sh2
+    // ... nor on HOW MUCH is already there: a vector that already holds several hundred errors (a long session that never drains it)
+    let mut long_errs: Vec<FluentError> = Vec::new();
+    for _ in 0..300 {
+        long_errs.push(FluentError::ResolverError(ResolverError::MissingDefault));
+    }
+    let sh4 = bundle.format_pattern(pattern, args.as_ref(), &mut long_errs).to_string();
+    let long_ok = sh4 == sh1 && long_errs.len() == 300 + n1 && long_errs[300..] == shared_errs[..n1];
+    let shared_ok = long_ok
+        && sh1 == sh2
         && sh2 == sh3
         && n2 - n1 == n1
         && n3 - n2 == n1
